@@ -106,7 +106,8 @@ fn random_op(rng: &mut SplitMix64, nvars: usize, nbonds: usize, same_vars: Optio
     let vars = match same_vars {
         Some(v) => v.clone(),
         None => {
-            let k = 1 + rng.below(nvars.min(3) as u64) as usize;
+            // one operator in ten covers NO variables (a constant term): sweeps must walk past it like past any other
+            let k = if rng.chance(1, 10) { 0 } else { 1 + rng.below(nvars.min(3) as u64) as usize };
             pick_distinct(rng, nvars, k)
         }
     };
@@ -143,7 +144,7 @@ pub fn run(args: &Args) -> Value {
             }
             let before = read_slots(&m);
             let len = before.len();
-            let kind = rng.below(11);
+            let kind = rng.below(12);
             *hist.entry(kind).or_insert(0usize) += 1;
             total_mut += 1;
             // expected contents are built from the decisions the callback makes
@@ -266,6 +267,24 @@ pub fn run(args: &Args) -> Value {
                             (if inside { decide(a, op, true, true, Some(&vs2)) } else { None }, t)
                         }, a, (), args);
                         m.return_args(args);
+                    }
+                }
+                11 => {
+                    // a sub-variable cursor CARRIED through a sweep (mutate_subsection with prepared Varlist args): it walks
+                    // past operators on other variables and then inserts / removes / replaces operators inside the sub-variables
+                    if len > 0 {
+                        let k = 1 + rng.below(nvars as u64) as usize;
+                        let mut vs = pick_distinct(&mut rng, nvars, k);
+                        vs.sort_unstable();
+                        let a = rng.below(len as u64) as usize;
+                        let b = a + rng.below((len - a) as u64 + 1) as usize;
+                        let args = m.get_empty_args(SubvarAccess::Varlist(&vs));
+                        let args = m.fill_args_at_p(a, args);
+                        let vs2 = vs.clone();
+                        m.mutate_subsection(a, b, a, |_, op, p| {
+                            let inside = op.map(|o| !o.get_vars().is_empty() && o.get_vars().iter().all(|v| vs2.contains(v))).unwrap_or(true);
+                            (if inside { decide(p, op, true, true, Some(&vs2)) } else { None }, p + 1)
+                        }, Some(args));
                     }
                 }
                 _ => {
